@@ -1,7 +1,7 @@
 (* Props/C18.v -- zero-crossing search finds real crossings.
    Property theorems only; proofs are in Audio/ZeroCrossProofs.v. *)
 From Coq Require Import ZArith Lia.
-From PraatIO Require Import Audio.ZeroCross Audio.ZeroCrossProofs Textgrid.TgModel Textgrid.TgProofs Textgrid.TgZc
+From PraatIO Require Import Audio.ZeroCross Audio.ZeroCrossProofs Audio.ZeroCrossFound Textgrid.TgModel Textgrid.TgProofs Textgrid.TgZc
   Tier.TierModel Audio.WavModel Textgrid.TgSplice Textgrid.TgSpliceProofs.
 Open Scope Z_scope.
 
@@ -102,3 +102,18 @@ Theorem C18_shift_times_keeps_ready M tv nv g g' :
   0 <= nv <= M -> ready M g -> shift_tg tv nv g = Ok g' -> ready M g'.
 Proof. exact (shift_tg_ready M tv nv g g'). Qed.
 Print Assumptions C18_shift_times_keeps_ready.
+
+(* a zero sample right before an on-sample target is found: the search does not end in "no crossing found"
+   (nor in any other error) when the target is sample k >= 1 of the recording and sample k-1 is zero *)
+Theorem C18_zero_before_target_found K s k st :
+  0 < K -> (1 <= k <= length s)%nat -> nth (k - 1) s 0 = 0 -> 2 * K <= st ->
+  exists x, find_zc K s (Z.of_nat k * K) st = Ok x.
+Proof. exact (find_zc_zero_before_target K s k st). Qed.
+Print Assumptions C18_zero_before_target_found.
+
+(* in particular on a silent recording, for every on-sample target after the first sample *)
+Theorem C18_silence_found K s k st :
+  0 < K -> Forall (fun x => x = 0) s -> (1 <= k <= length s)%nat -> 2 * K <= st ->
+  exists x, find_zc K s (Z.of_nat k * K) st = Ok x.
+Proof. exact (find_zc_silence K s k st). Qed.
+Print Assumptions C18_silence_found.
